@@ -60,9 +60,9 @@ pub enum Eff {
     FetchAdd(int, u64),            // atomic RMW add on cell
     CellSet(int, usize, bool),     // OnceLock::set(cell, value) -> succeeded?
     CellGet(int, Option<usize>),
-    Lock, Unlock,
-    GraphInsert(u64, Identity),
-    GraphRemove(u64),
+    /// the wait-for mutex was acquired and the graph seen was g / released leaving the graph g
+    Lock(Map<u64, Identity>),
+    Unlock(Map<u64, Identity>),
     Opaque(OpaqueTag),             // a call of a function that is NOT under contract
     Spawned(int, int, int),        // lifecycle task spawned on (mailbox chan, control chan, args id)
     Released(int),                 // a strong ActorRef to mailbox chan was dropped explicitly
@@ -673,3 +673,74 @@ impl Instant {
 // ---------------------------------------------------------------- std library specs missing from vstd
 pub assume_specification<'a, T: Copy>[ Option::<&'a T>::copied ](o: Option<&'a T>) -> (r: Option<T>)
     ensures r == (match o { Some(v) => Some(*v), None => None::<T> });
+
+// ---------------------------------------------------------------- deadlock detection: task-local, mutex, graph
+#[cfg(feature = "deadlock-detection")]
+pub struct AccessError;
+
+/// `CURRENT_ACTOR.try_with(|id| *id)`: the task-local value of the running task, Err outside any scope
+#[cfg(feature = "deadlock-detection")]
+#[verifier::external_body]
+pub fn vx_task_local_get(w: &mut World) -> (r: core::result::Result<Identity, AccessError>)
+    ensures
+        r is Ok <==> old(w).current_actor() is Some,
+        r is Ok ==> Some(r->Ok_0) == old(w).current_actor(),
+        final(w).log() == old(w).log(),
+        same_ambient(*old(w), *final(w)),
+{ unimplemented!() }
+
+#[cfg(feature = "deadlock-detection")]
+#[verifier::external_body]
+#[verifier::reject_recursive_types(T)]
+pub struct Mutex<T> { _p: PhantomData<fn() -> T> }
+#[cfg(feature = "deadlock-detection")]
+pub struct PoisonError;
+
+/// The guard is spelled Box<HashMap<..>> (type spelling rule): it derefs to the map like MutexGuard does; releasing it is
+/// the explicit `drop(guard, w)` (written in the source or made explicit by rule D).
+#[cfg(feature = "deadlock-detection")]
+impl Mutex<HashMap<u64, Identity>> {
+    /// std::sync::Mutex::lock: Err iff poisoned.  The graph seen under the lock is whatever other tasks left there.
+    #[verifier::external_body]
+    pub fn lock(&self, w: &mut World) -> (r: core::result::Result<Box<HashMap<u64, Identity>>, PoisonError>)
+        requires
+            !old(w).lock_held(), /*L:mutex.no_reentrant_lock*/
+        ensures
+            r is Ok <==> !old(w).poisoned(),
+            r is Ok ==> final(w).lock_held() && r->Ok_0@ == final(w).graph()
+                        && final(w).log() == old(w).log().push(Eff::Lock(final(w).graph())),
+            r is Err ==> !final(w).lock_held() && final(w).log() == old(w).log() && final(w).graph() == old(w).graph(),
+            final(w).current_actor() == old(w).current_actor(), final(w).poisoned() == old(w).poisoned(),
+            final(w).mmon() == old(w).mmon(), final(w).cap_cell() == old(w).cap_cell(),
+            final(w).id_floor() == old(w).id_floor(), final(w).chan_floor() == old(w).chan_floor(),
+            final(w).dl_count() == old(w).dl_count(), final(w).own_strong() == old(w).own_strong(),
+    { unimplemented!() }
+}
+
+/// the global wait-for mutex (`WAIT_FOR.get_or_init(..)`): one per process
+#[cfg(feature = "deadlock-detection")]
+#[verifier::external_body]
+pub fn wait_for_graph() -> (r: &'static Mutex<HashMap<u64, Identity>>) { unimplemented!() }
+
+/// releasing the guard publishes the (possibly modified) map and unlocks
+#[cfg(feature = "deadlock-detection")]
+impl VxDrop for Box<HashMap<u64, Identity>> {
+    open spec fn drop_eff(&self, w0: World, w1: World) -> bool {
+        &&& !w1.lock_held()
+        &&& w1.graph() == (**self)@
+        &&& w1.log() == w0.log().push(Eff::Unlock((**self)@))
+        &&& w1.current_actor() == w0.current_actor()
+        &&& w1.poisoned() == w0.poisoned()
+        &&& w1.mmon() == w0.mmon()
+        &&& w1.cap_cell() == w0.cap_cell()
+        &&& w1.id_floor() == w0.id_floor()
+        &&& w1.chan_floor() == w0.chan_floor()
+        &&& w1.dl_count() == w0.dl_count()
+        &&& w1.own_strong() == w0.own_strong()
+    }
+}
+
+/// string building for the panic message: NOT under contract
+#[cfg(feature = "deadlock-detection")]
+#[verifier::external_body]
+pub fn format_cycle_path(graph: &HashMap<u64, Identity>, caller: Identity, callee: Identity) -> String { unimplemented!() }
